@@ -91,7 +91,9 @@ var patLists = []patList{
 // add_after_a adds the list $R/safe/a.txt first (accepted or refused by the
 // patterns) and then the location, on the same instance: what one check has
 // accepted must not widen what the next one accepts.
-var entries = []string{"add", "set_url", "set_url_2step", "refresh", "periodic", "refresh_stored", "periodic_stored", "add_after_a"}
+// set_url_toggle: the location is already in the configuration; the list is
+// disabled and enabled again through set_url with the address unchanged.
+var entries = []string{"add", "set_url", "set_url_2step", "refresh", "periodic", "refresh_stored", "periodic_stored", "add_after_a", "set_url_toggle"}
 
 // ---------------------------------------------------------------------------
 // location grammar
@@ -513,7 +515,7 @@ func (e *env) exec(cs *caseC) (o *obsT) {
 	case "set_url", "set_url_2step":
 		initial = []filtering.FilterYAML{{Enabled: true, URL: baseURL, Name: "base", Filter: filtering.Filter{ID: 1}}}
 		_ = os.WriteFile(filepath.Join(fdir, "1.txt"), []byte("||base.test^\n"), 0o644)
-	case "refresh", "periodic":
+	case "refresh", "periodic", "set_url_toggle":
 		initial = []filtering.FilterYAML{{Enabled: true, URL: loc, Name: "hostile", Filter: filtering.Filter{ID: 1}}}
 	case "refresh_stored", "periodic_stored":
 		initial = []filtering.FilterYAML{{Enabled: true, URL: loc, Name: "hostile", Filter: filtering.Filter{ID: 1}}}
@@ -570,6 +572,9 @@ func (e *env) exec(cs *caseC) (o *obsT) {
 				}
 			}
 			post(d.VerifC17SetURL, setReq{Data: &data{"hostile", loc, true}, URL: cur, Whitelist: cs.White}, o)
+		case "set_url_toggle":
+			post(d.VerifC17SetURL, setReq{Data: &data{"hostile", loc, false}, URL: loc, Whitelist: cs.White}, o)
+			post(d.VerifC17SetURL, setReq{Data: &data{"hostile", loc, true}, URL: loc, Whitelist: cs.White}, o)
 		case "refresh", "refresh_stored":
 			post(d.VerifC17Refresh, map[string]any{"whitelist": cs.White}, o)
 		case "periodic", "periodic_stored":
@@ -972,7 +977,7 @@ func main() {
 				"http_requests_attempted":             m.Counters["http_requests_attempted"],
 				"pattern_lists":                       len(patLists),
 				"entry_points":                        entries,
-				"rule":                                "14 pattern lists (empty, dir/*b.txt, an exact path followed by a glob of another directory, patterns differing from the tree only in letter case, exact, dir/*, dir/?.txt, dir/[ab].txt, */a.txt, two patterns, root/*/a.txt, directory itself, *, dir/) x locations x 8 entry points (add_url, add_url after the list safe/a.txt has been added on the same instance, set_url, set_url disabled-then-enabled, forced refresh handler, periodic refresh tick — the last two with the location already in the configuration, each also with contents of the list already stored from an earlier fetch) x block/allow registry. Locations: 13 targets (10 canary files in safe dir, its sub-directory, unsafe dir, tree root, look-alike 'safe-evil' dir; a missing file; two directories) x dot-dot routes (direct, via safe/, safe/sub/, a FILE safe/a.txt/, unsafe/, safe-evil/, overshoot above /) x departures: segment insertion (/./, //, /x/../), percent-encoding (last separator, dots, first letter), suffix (/, /., //, /x/.., ?x=1), prefix (relative to cwd=safe dir, ./relative, file://, FILE://, file:, file://localhost, ftp://, ftp://host, unix://, http://closed-port, https://, http://, leading space) + 18 stand-alone spellings (empty, NUL bytes, backslashes, ~). non-trivial = case in which a canary file was legitimately read, or a spelling aimed at an existing canary file had to be refused",
+				"rule":                                "14 pattern lists (empty, dir/*b.txt, an exact path followed by a glob of another directory, patterns differing from the tree only in letter case, exact, dir/*, dir/?.txt, dir/[ab].txt, */a.txt, two patterns, root/*/a.txt, directory itself, *, dir/) x locations x 9 entry points (set_url that disables and re-enables a list already in the configuration without changing its address, add_url, add_url after the list safe/a.txt has been added on the same instance, set_url, set_url disabled-then-enabled, forced refresh handler, periodic refresh tick — the last two with the location already in the configuration, each also with contents of the list already stored from an earlier fetch) x block/allow registry. Locations: 13 targets (10 canary files in safe dir, its sub-directory, unsafe dir, tree root, look-alike 'safe-evil' dir; a missing file; two directories) x dot-dot routes (direct, via safe/, safe/sub/, a FILE safe/a.txt/, unsafe/, safe-evil/, overshoot above /) x departures: segment insertion (/./, //, /x/../), percent-encoding (last separator, dots, first letter), suffix (/, /., //, /x/.., ?x=1), prefix (relative to cwd=safe dir, ./relative, file://, FILE://, file:, file://localhost, ftp://, ftp://host, unix://, http://closed-port, https://, http://, leading space) + 18 stand-alone spellings (empty, NUL bytes, backslashes, ~). non-trivial = case in which a canary file was legitimately read, or a spelling aimed at an existing canary file had to be refused",
 			}
 		},
 		Assumptions: []string{
